@@ -32,7 +32,7 @@ def predicate(fn):
 
 def match(fail, episode, entries):
     for e in entries:
-        if e.get("status") != "open" or e["property"] != fail["prop"]:
+        if e.get("status") != "open" or e["property"] not in fail["prop"].split(","):
             continue
         if e.get("clauses") and fail["clause"] not in e["clauses"]:
             continue
